@@ -592,7 +592,7 @@ static struct iauth_module iauth_xquery = {
     .x_unlinked = iauth_xquery_x_unlinked,
 };
 
-static void iauth_xquery_config_service(const char *name, const char *type)
+static void iauth_xquery_config_service(const char *name, const char *type, int may_add)
 {
     struct iauth_xquery_service *srv = NULL;
     unsigned int ii;
@@ -606,6 +606,9 @@ static void iauth_xquery_config_service(const char *name, const char *type)
 
     /* If not, add it. */
     if (ii == iauth_xquery_services.used) {
+        if (!may_add)
+            return;
+
         /* Per-client state is one bit per table slot in 32-bit masks. */
         for (ii = 0; ii < iauth_xquery_services.used; ++ii)
             if (!iauth_xquery_services.vec[ii])
@@ -663,6 +666,7 @@ static void iauth_xquery_services_changed(struct conf_node_base *node)
     struct iauth_xquery_service *srv;
     struct set_node *jj;
     unsigned int ii;
+    int pass;
 
     if (node == &conf.root->base) {
         /* Mark all services as unconfigured. */
@@ -672,27 +676,32 @@ static void iauth_xquery_services_changed(struct conf_node_base *node)
                 srv->configured = 0;
         }
 
-        /* Mark each named service as configured. */
-        for (jj = set_first(&conf.root->contents); jj != NULL; jj = set_next(jj)) {
-            struct conf_node_base *base = set_node_data(jj);
+        /* Mark each named service as configured: first the ones we
+         * know, then (once the slots of dropped services are free)
+         * the new ones.
+         */
+        for (pass = 0; pass < 2; ++pass) {
+            for (jj = set_first(&conf.root->contents); jj != NULL; jj = set_next(jj)) {
+                struct conf_node_base *base = set_node_data(jj);
 
-            /* The section hook only runs when entries come or go;
-             * watch each entry for changes of its value.
-             */
-            if (!base->hook)
-                base->hook = iauth_xquery_service_changed;
+                /* The section hook only runs when entries come or go;
+                 * watch each entry for changes of its value.
+                 */
+                if (!base->hook)
+                    base->hook = iauth_xquery_service_changed;
 
-            if (base->type == CONF_STRING) {
-                struct conf_node_string *str = set_node_data(jj);
-                /* An entry that is being removed has no value. */
-                if (str->value)
-                    iauth_xquery_config_service(str->base.name, str->value);
-            } /* else unknown type */
+                if (base->type == CONF_STRING) {
+                    struct conf_node_string *str = set_node_data(jj);
+                    /* An entry that is being removed has no value. */
+                    if (str->value)
+                        iauth_xquery_config_service(str->base.name, str->value, pass);
+                } /* else unknown type */
+            }
+
+            /* Check for unreferenced services. */
+            for (ii = 0; ii < iauth_xquery_services.used; ++ii)
+                iauth_xquery_unref(ii);
         }
-
-        /* Check for unreferenced services. */
-        for (ii = 0; ii < iauth_xquery_services.used; ++ii)
-            iauth_xquery_unref(ii);
     }
 }
 
